@@ -26,7 +26,8 @@ Definition is_unmodelled {A} (r : res A) : bool := match r with Err EUnmodelled 
    and must evaluate to the same object.
    pp_guard: pp/quote.go:42 Quote.setLeft does not move its child, so a quoted list keeps the column it had in the
    unbroken layout; when that column is 255 or more, breaking the list slices the 257-byte indent string out of
-   range [C19-pp-quote-indent]. The column in the unbroken layout is at most the column in the plain one-line text. *)
+   range [C19-pp-quote-indent]. The column in the unbroken layout is at most the column in the plain one-line text
+   (which writes (quote x) for 'x); the guard leaves out every form with a quoted list at column 250 or beyond. *)
 Definition wide_text (texts : list (N * tobs)) : option string :=
   match texts with (_, TText w _ _) :: _ => Some w | _ => None end.
 Definition texts_ok (texts : list (N * tobs)) : bool :=
